@@ -2,13 +2,21 @@ NOTE_COMMON = ("trusts gqlparser v2.5.1 (also used by pebbles), the harness's se
                "the Go runtime and race detector; absence of violations is a statement about the explored cases only")
 
 CHECKS = [
+    {"property_id": "C03", "category": "exploration", "design_ref": "DESIGN.md §5 C03",
+     "technique": "property-based testing (rapid): generated mergeable service-schema sets, bidirectional inclusion oracle on schema facts",
+     "text": "rapid-generated federated worlds (mergeable by construction) are merged by the real ExtendMergerFunc / SanitizeNodeMergerFunc in a drawn service order; the oracle flattens every service schema and the merged schema into facts (types, kinds, fields, argument name/type/default, enum values, union members, implements, input fields, directives) and demands inclusion in both directions, a print/load round trip of the merged schema, and that operations generated valid against one service validate against the merged schema",
+     "level_note": NOTE_COMMON + "; descriptions excluded; worlds limited to the shapes the generator builds"},
+    {"property_id": "C04", "category": "exploration", "design_ref": "DESIGN.md §5 C04",
+     "technique": "property-based testing (rapid): generated mergeable worlds, validity predicate over the routing table against independently computed declarers",
+     "text": "for generated mergeable worlds the TypeURLMap returned by the real merger is checked field by field: every routable field of every object type has a route to a service whose SDL declares it, root fields go to their single declarer, the stitchable flag equals 'implements Node', nothing is routed that the merged schema lacks, and the routed service set is bracketed from both sides",
+     "level_note": NOTE_COMMON},
     {"property_id": "C20", "category": "exploration", "design_ref": "DESIGN.md §5 C20",
      "technique": "property-based testing (rapid) with harness-controlled completion order and hook-point perturbation; exhaustive small grid",
      "text": "rapid-generated (n, error pattern, worker completion order, callback/hook-point yields) executions of the real AsyncMapReduce checked against history invariants (map once, reduce once per success and never concurrently, complete at return, all errors returned, no goroutine left); the grid n<=4 x 2^n x n! sequential completion orders is enumerated exhaustively on every run; thorough adds the race detector",
      "level_note": NOTE_COMMON + "; schedule control limited to callbacks and the 9 verif hook points"},
 ]
 
-_PENDING = ["C01","C02","C03","C04","C05","C06","C07","C08","C09","C10","C11","C12","C13","C14","C15","C16","C17","C18","C19"]
+_PENDING = ["C01","C02","C05","C06","C07","C08","C09","C10","C11","C12","C13","C14","C15","C16","C17","C18","C19"]
 NOT_APPLICABLE = [{"property_id": p, "reason": "check not built yet (work in progress; the technique applies, see DESIGN.md §5)"} for p in _PENDING]
 
 NOTES = "All checks are property-based tests / fuzz targets in /verif/harness (Go, rapid v1.3.0) run by /verif/check; see DESIGN.md."
